@@ -28,7 +28,7 @@ class C07(S4UCheck):
                     ops.append(['sleep', gen.think(r, 0.3)])
                 ops.append(['barrier', bars[r.below(nbar)][0]])
             plan['actors'].append(dict(id='a%d' % ai, host='h%d' % r.below(len(plan['hosts'])), ops=ops))
-        gen.knobs(plan, r)
+        gen.knobs(plan, r, walk_p=0.35)
         return plan
 
     def oracle(self, plan, res):
